@@ -692,6 +692,17 @@ func (x *Exec) makeIface(st *State, ity types.Type, a SV) SV {
 	}
 	tag := x.typeTag(a.ty)
 	var val *Term
+	if a.p != nil && len(a.p.steps) > 0 && len(a.l) == 1 {
+		// interior pointer boxed into an interface: keep its provenance in a side table, keyed by an
+		// opaque payload
+		val = mkVar(freshName("iptr"), I64)
+		if x.iptr == nil {
+			x.iptr = map[int]SV{}
+		}
+		x.iptr[val.id] = a
+		st.assume(Neq(val, mkBV(0, 64)))
+		return SV{ty: ity, l: []*Term{tag, val}}
+	}
 	if len(a.l) == 1 && a.l[0].sort.bv > 0 && a.l[0].sort.bv <= 64 {
 		val = ZExt(a.l[0], 64)
 	} else if len(a.l) == 1 && a.l[0].sort == BoolS {
@@ -709,6 +720,12 @@ func (x *Exec) makeIface(st *State, ity types.Type, a SV) SV {
 }
 
 func (x *Exec) unbox(st *State, ty types.Type, v SV) SV {
+	if len(v.l) == 2 {
+		if a, ok := x.iptr[v.l[1].id]; ok {
+			a.ty = ty
+			return a
+		}
+	}
 	ls := leavesOf(ty)
 	if len(ls) == 1 && ls[0].sort.bv > 0 && ls[0].sort.bv <= 64 {
 		return scalarSV(ty, Extract(ls[0].sort.bv-1, 0, v.l[1]))
